@@ -1,11 +1,46 @@
 (* C30 — evaluation: the model escaper vs ManifestCustomCharEscaper, and the model lexer reading it back. *)
-From Coq Require Import List NArith Bool.
+From Coq Require Import List NArith ZArith Bool.
 Import ListNotations.
-Require Import RV.Model.C30_Text RV.Model.C31_Lexer RV.Corr.C31_run.
+Require Import RV.Model.C30_Text RV.Model.C31_Lexer RV.Model.C30_Value RV.Corr.C31_run.
 Open Scope N_scope.
 
+Fixpoint ast_eqb (a b : ast) {struct a} : bool :=
+  let fix all2 (x y : list ast) : bool :=
+    match x, y with [], [] => true | p :: x', q :: y' => ast_eqb p q && all2 x' y' | _, _ => false end in
+  let fix all2p (x y : list (ast * ast)) : bool :=
+    match x, y with [], [] => true | (p1, p2) :: x', (q1, q2) :: y' => ast_eqb p1 q1 && ast_eqb p2 q2 && all2p x' y' | _, _ => false end in
+  match a, b with
+  | ABool x, ABool y => Bool.eqb x y
+  | AInt s1 b1 v1, AInt s2 b2 v2 => Bool.eqb s1 s2 && N.eqb b1 b2 && Z.eqb v1 v2
+  | AStr x, AStr y => listN_eqb x y
+  | AEnum d1 f1, AEnum d2 f2 => N.eqb d1 d2 && all2 f1 f2
+  | AArray k1 e1, AArray k2 e2 => listN_eqb k1 k2 && all2 e1 e2
+  | ATuple f1, ATuple f2 => all2 f1 f2
+  | AMap k1 v1 e1, AMap k2 v2 e2 => listN_eqb k1 k2 && listN_eqb v1 v2 && all2p e1 e2
+  | ANone, ANone => true
+  | AOne i1 v1, AOne i2 v2 => listN_eqb i1 i2 && ast_eqb v1 v2
+  | _, _ => false
+  end.
+Fixpoint tokens_eqb (a b : list token) : bool :=
+  match a, b with [], [] => true | x :: a', y :: b' => token_eqb x y && tokens_eqb a' b' | _, _ => false end.
+Definition perr_eqb (a b : perr) : bool :=
+  match a, b with
+  | PEof, PEof | PUnexpected, PUnexpected | PMaxDepth, PMaxDepth | PNumValues, PNumValues | PNumTypes, PNumTypes | PUnmodelled, PUnmodelled => true
+  | _, _ => false
+  end.
+(* the implementation's parser result: Some ast + number of tokens left, or an error kind *)
+Inductive presult := PRes (v : option ast) (nleft : nat) (e : option perr) | PPanic.
+Definition pres_agrees (m : pres ast) (r : presult) : bool :=
+  match m, r with
+  | POk a rest, PRes (Some b) nleft None => ast_eqb a b && Nat.eqb (length rest) nleft
+  | PErr e, PRes None _ (Some e') => perr_eqb e e'
+  | _, _ => false
+  end.
+
 (* a string as (code point, should-escape flag reported by the implementation) *)
-Inductive case := CNone | CEscape (s : list (N * bool)) (printed : list N).
+Inductive case := CNone | CEscape (s : list (N * bool)) (printed : list N)
+| CValue (v : mv) (tokens : list token) (parsed : presult)
+| CParse (tokens : list token) (parsed : presult).
 Definition flag_of (s : list (N * bool)) (c : N) : bool := existsb (fun p => N.eqb (fst p) c && snd p) s.
 Definition check (c : case) : bool :=
   match c with
@@ -14,4 +49,6 @@ Definition check (c : case) : bool :=
       let str := map fst s in
       listN_eqb (escape (flag_of s) str) printed &&
       sres_eqb (lex_string_literal printed) (SOk str (N.of_nat (length printed)))
+  | CValue v tokens parsed => tokens_eqb (print_value v) tokens && pres_agrees (parse_tokens tokens) parsed
+  | CParse tokens parsed => pres_agrees (parse_tokens tokens) parsed
   end.
